@@ -271,7 +271,7 @@ fn rss_bytes() -> u64 {
 pub fn start_watchdog(out: String, fallback_case: Option<String>) {
     now_ms();
     let limit = std::env::var("VH_RSS_LIMIT_MB").ok().and_then(|s| s.parse::<u64>().ok()).unwrap_or(8192) << 20;
-    let max_age = std::env::var("VH_CASE_TIMEOUT_S").ok().and_then(|s| s.parse::<u64>().ok()).unwrap_or(900) * 1000;
+    let max_age = std::env::var("VH_CASE_TIMEOUT_S").ok().and_then(|s| s.parse::<u64>().ok()).unwrap_or(400) * 1000;
     std::thread::spawn(move || loop {
         std::thread::sleep(std::time::Duration::from_millis(20));
         let rss = rss_bytes();
